@@ -72,6 +72,13 @@ CONFIGS = [
     cfg("sig_q", [["build"], ["signature"], ["signature", "forgesigned", "elideset", "addassertion", "decorate"], ["verify"]],
         atoms=("a1",), nreg=1, maxsize=30, maxt=1, inv=("WellFormedInv",), props=("C09Prop",),
         shapes="ShUpTo(%s, 2) \\cup {e \\in Sh(%s, 5) : IsNode(e)} \\cup NodeSubjectNodes(%s, 9)" % (B1, B1, B1)),
+    cfg("sig_q2", [["build"], ["signature"], ["elideset", "compressone"], ["signature"], ["verify"]],
+        atoms=("a1",), nreg=1, maxsize=40, maxt=1, inv=("WellFormedInv",), props=("C09Prop",),
+        shapes="ShUpTo(%s, 2) \\cup NodeSubjectNodes(%s, 9)" % (B1, B1)),
+    cfg("sig_t", [["build"], ["signature"], ["signature", "forgesigned", "elideset", "compressone", "addassertion", "decorate", "wrap"],
+                  ["signature", "elideset", "uncompress", "codec"], ["verify"]],
+        atoms=("a1",), nreg=1, maxsize=40, maxt=1, inv=("WellFormedInv",), props=("C09Prop",),
+        shapes="ShUpTo(%s, 2) \\cup {e \\in Sh(%s, 5) : IsNode(e)} \\cup NodeSubjectNodes(%s, 9)" % (B1, B1, B1)),
     # recipients and seal (C10)
     cfg("recipient_q", [["build"], ["recipient_enc"], ["recipient_add", "addassertion", "recipient_dec", "decorate"], ["recipient_dec"]],
         atoms=("a1",), nreg=1, maxsize=30, maxt=1, inv=("WellFormedInv",), props=("C10Prop",),
